@@ -233,14 +233,19 @@ def judge(run, meta, parsed, model):
                 cls = 'container-reader-refs-use-reader-definitions' if has_ref(_json.loads(mt['W'])) and not same_schema else 'container-vs-datum-reader'
                 run.fail(cls, 'Reader(reader_schema) gives %s, GenericDatumReader %s' % (show(citem)[:80], show(read)[:80]), case)
         primary = None
+        # a known finding is a behaviour of the modelled (unchanged) code: only a result the faithful model also
+        # produces can belong to a known class; anything else is reported as it is
+        mr = m[1]
+        faithful = tag(mr) == tag(read) and (tag(read) != 'ok' or canon(mr[1], True) == canon(read[1], True))
+        classify_ = (lambda *a: classify(*a)) if faithful else (lambda *a: None)
         if tag(spec) == 'some':
             want = canon(spec[1], True)
             if tag(read) != 'ok':
-                primary = classify(mt, 'rejected', spec, read, decoded)
+                primary = classify_(mt, 'rejected', spec, read, decoded)
                 run.fail(primary or 'spec-result-rejected',
                          'the specification gives %s, the library reports an error' % show(spec[1])[:120], case)
             elif canon(read[1], True) != want:
-                primary = classify(mt, 'differs', spec, read, decoded)
+                primary = classify_(mt, 'differs', spec, read, decoded)
                 run.fail(primary or 'spec-result-differs',
                          'the specification gives %s, the library %s' % (show(spec[1])[:100], show(read[1])[:100]), case)
             elif mt['steps'] != 'identity':
@@ -248,7 +253,7 @@ def judge(run, meta, parsed, model):
                 run.sample({'W': mt['W'][:80], 'R': mt['R'][:80], 'steps': mt['steps'], 'value': mt['value'][:60], 'read': show(read[1])[:60]}, limit=8)
         else:
             if tag(read) == 'ok':
-                primary = classify(mt, 'invented', spec, read, decoded)
+                primary = classify_(mt, 'invented', spec, read, decoded)
                 run.fail(primary or 'value-where-rules-give-none',
                          'the rules give no result, the library returns %s' % show(read[1])[:120], case)
         if tag(read) == 'ok':
@@ -258,7 +263,6 @@ def judge(run, meta, parsed, model):
             if tag(idem) != 'ok' or canon(idem[1], True) != canon(read[1], True):
                 run.fail(primary or 'not-idempotent', 'resolving the result again gives %s' % show(idem)[:100], case)
         # correspondence: model resolve = implementation read
-        mr = m[1]
         if tag(mr) != tag(read) or (tag(read) == 'ok' and canon(mr[1], True) != canon(read[1], True)):
             run.disagree('resolve', case, show(read)[:200], show(mr)[:200])
 
